@@ -269,12 +269,12 @@ def toy2c_class():
 _cache: dict = {}
 
 
-def make_thermo(kind="toy1", params=None, TnFrac=0.6, tminFrac=0.6, tmaxFrac=1.6, rTol=1e-6, Tscale=None, key=None, guess_err=0.0):
+def make_thermo(kind="toy1", params=None, TnFrac=0.6, tminFrac=0.6, tmaxFrac=1.6, rTol=1e-6, Tscale=None, key=None, guess_err=0.0, cross=False):
     """Real WallGo.Thermodynamics on a toy model with both phases traced; Tn = T0 + TnFrac (Tc - T0).
     guess_err: relative error put on the broken-phase location handed to Thermodynamics (the docstring allows an approximate guess;
     toy1/toy2 only).  Returns (thermo, model, info)."""
     params = dict(params or {})
-    ck = key or (kind, tuple(sorted(params.items())), TnFrac, tminFrac, tmaxFrac, rTol, Tscale, guess_err)
+    ck = key or (kind, tuple(sorted(params.items())), TnFrac, tminFrac, tmaxFrac, rTol, Tscale, guess_err, cross)
     if ck in _cache:
         return _cache[ck]
     WallGo = _wg()
@@ -315,7 +315,7 @@ def make_thermo(kind="toy1", params=None, TnFrac=0.6, tminFrac=0.6, tmaxFrac=1.6
     dT = Ts * rTol ** 0.25
     T0, T1 = ref.T0, ref.T1()
     loH = max(tminFrac * Tn, T0 * 1.02)
-    hiL = min(tmaxFrac * Tn, T1 * 0.98)
+    hiL = tmaxFrac * Tn if cross else min(tmaxFrac * Tn, T1 * 0.98)      # cross: the requested range of the low-T phase reaches past its spinodal
     th.freeEnergyHigh.tracePhase(loH, tmaxFrac * Tn, dT, rTol=rTol)
     th.freeEnergyLow.tracePhase(tminFrac * Tn, hiL, dT, rTol=rTol)
     th.setExtrapolate()
